@@ -142,4 +142,20 @@ ClassOfDecimal(tok, fast) ==
 \* most 15 significant digits inside the normal range is the shortest form of its nearest double.
 DigitComparable(n) ==
   n.t = "flt" /\ (n.d = Zero \/ (Len(n.d) <= 15 /\ Len(n.d) + n.e > 0 - 290 /\ Len(n.d) + n.e < 290))
+
+(***************************************************************************)
+(* Two correct shortest-digit algorithms may print the same double with a  *)
+(* different 16th / 17th significant digit (both texts read back as that   *)
+(* double).  x and y (number records) agree if they are equal, or are      *)
+(* floats of the same sign with at least 16 digits each that differ by at  *)
+(* most two units in the last place of the longer digit string.            *)
+(***************************************************************************)
+ZeroPad(k) == [i \in 1..k |-> 0]
+FloatAgrees(x, y) ==
+  IF x = y THEN TRUE
+  ELSE IF x.t # "flt" \/ y.t # "flt" \/ x.neg # y.neg \/ Len(x.d) < 16 \/ Len(y.d) < 16 THEN FALSE
+  ELSE LET ex == IF x.e < y.e THEN x.e ELSE y.e
+           X == Norm(x.d \o ZeroPad(x.e - ex))
+           Y == Norm(y.d \o ZeroPad(y.e - ex))
+       IN x.e - ex <= 2 /\ y.e - ex <= 2 /\ Leq(X, AddSmall(Y, 2)) /\ Leq(Y, AddSmall(X, 2))
 =============================================================================
